@@ -191,7 +191,8 @@ func (c *Ctx) ruleFunctionCall(rule string) {
 				return false
 			}
 			bi, ok := call.Call.Value.(*ssa.Builtin)
-			return ok && bi.Name() == "len" && call.Call.Args[0] == ssa.Value(fn.Params[len(fn.Params)-1])
+			// (the check may sit in a helper that was given the arguments: its parameter is named through the call)
+			return ok && bi.Name() == "len" && c.M.CondPath(fn, cond, call.Call.Args[0]) == c.M.ValPath(fn.Params[len(fn.Params)-1])
 		}
 		isNumIn := func(v ssa.Value) bool {
 			call, ok := v.(*ssa.Call)
@@ -208,15 +209,15 @@ func (c *Ctx) ruleFunctionCall(rule string) {
 	}
 	c.functionCallArgs(rule, fn, hcall)
 	// error provenance
-	ei := core.ErrorResultIndex(fn.Signature)
 	idx := 0
-	for _, r := range core.ReturnsOf(fn) {
-		e := core.RetVal(r, ei)
-		if core.IsNilConst(e) {
-			continue
+	lastFn := fn
+	for _, es := range c.errorSites(fn, 0) {
+		r, e := es.site.Ret, es.site.Val
+		if es.fn != lastFn {
+			idx, lastFn = 0, es.fn
 		}
 		idx++
-		k := key(rule, c.M.Key(fn), sprintf("error return #%d is a fresh FunctionCallError with a faithful flag", idx))
+		k := key(rule, c.M.Key(es.fn), sprintf("error return #%d is a fresh FunctionCallError with a faithful flag", idx))
 		pos := c.M.InstrPos(r)
 		mi, ok := e.(*ssa.MakeInterface)
 		var ctor *ssa.Call
@@ -233,11 +234,11 @@ func (c *Ctx) ruleFunctionCall(rule string) {
 			c.R.Bad(rule, k, pos, "function-reported flag is not a constant", "undecided = fail")
 			continue
 		}
-		fromHandler := derivesFromValue(ctor.Call.Args[0], hcall, 0)
+		fromHandler := es.fn == fn && derivesFromValue(ctor.Call.Args[0], hcall, 0)
 		// the branch in which the recover helper reported a panic of the handler: whatever is built there describes
 		// the handler's own failure
-		if reflCallFn != nil && reflCallFn != fn {
-			for _, cond := range core.CondsAt(r.Block()) {
+		if reflCallFn != nil && reflCallFn != fn && es.fn == fn {
+			for _, cond := range es.site.Conds() {
 				if x, neq, ok := core.NilCmp(cond.V); ok && neq == cond.True {
 					if ex, ok := x.(*ssa.Extract); ok && ex.Tuple == ssa.Value(hcall) && ex.Index > 0 {
 						fromHandler = true
@@ -253,6 +254,36 @@ func (c *Ctx) ruleFunctionCall(rule string) {
 		}
 	}
 	c.R.Floor(rule, 4)
+}
+
+// errorSite is a way out of a function with an error that is not the nil constant.
+type errorSite struct {
+	fn   *ssa.Function
+	site core.RetSite
+}
+
+// errorSites lists the ways out of fn that return an error; where fn passes on the error of a helper of its own package
+// (checks moved into a function of their own), the helper's ways out stand in for it.
+func (c *Ctx) errorSites(fn *ssa.Function, depth int) []errorSite {
+	ei := core.ErrorResultIndex(fn.Signature)
+	if ei < 0 {
+		return nil
+	}
+	var out []errorSite
+	for _, s := range core.RetSites(fn, ei) {
+		if core.IsNilConst(s.Val) {
+			continue
+		}
+		if call, i, ok := core.CallResult(core.Unwrap(s.Val)); ok && depth < 3 {
+			if helper := core.StaticBody(&call.Call); helper != nil && helper != fn && helper.Pkg == fn.Pkg &&
+				!token.IsExported(helper.Name()) && i == core.ErrorResultIndex(helper.Signature) {
+				out = append(out, c.errorSites(helper, depth+1)...)
+				continue
+			}
+		}
+		out = append(out, errorSite{fn, s})
+	}
+	return out
 }
 
 // derivesFromValue: v is computed from src (through element access, Interface(), type assertions, conversions).
@@ -313,7 +344,7 @@ func (c *Ctx) ruleHandlerKind(rule string) {
 			}
 			all, n := true, 0
 			for _, r := range core.ReturnsOf(fn) {
-				if c.M.ProvablyNonNilError(core.RetVal(r, ei), r.Block()) {
+				if c.M.RetNonNil(r, ei) {
 					continue
 				}
 				n++
@@ -454,6 +485,37 @@ func (c *Ctx) functionCallArgs(rule string, fn *ssa.Function, hcall *ssa.Call) {
 		return
 	}
 	slice := hcall.Call.Args[1]
+	ends := []*ssa.BasicBlock{hcall.Block()}
+	// the slice may be built by a helper of the package (the conversion of the arguments, moved into a function of its
+	// own): the stores are examined there, and "before the call" is "before the helper returns the slice"
+	if call, i, ok := core.CallResult(slice); ok {
+		if helper := core.StaticBody(&call.Call); helper != nil && helper.Pkg == fn.Pkg {
+			var made ssa.Value
+			var retBlocks []*ssa.BasicBlock
+			same := true
+			for _, s := range core.RetSites(helper, i) {
+				if core.IsNilConst(s.Val) {
+					continue
+				}
+				if made != nil && made != s.Val {
+					same = false
+				}
+				made = s.Val
+				retBlocks = append(retBlocks, s.Block())
+			}
+			if made != nil && same {
+				fn, slice, ends = helper, made, retBlocks
+			}
+		}
+	}
+	reachesEnd := func(b *ssa.BasicBlock, stop func(*ssa.BasicBlock) bool) bool {
+		for _, e := range ends {
+			if blockReaches(b, e, stop) {
+				return true
+			}
+		}
+		return false
+	}
 	dt := core.NewDynTypes(c.M)
 	n := 0
 	assignChecked := func(b *ssa.BasicBlock) bool {
@@ -510,7 +572,7 @@ func (c *Ctx) functionCallArgs(rule string, fn *ssa.Function, hcall *ssa.Call) {
 					break
 				}
 			}
-			unchecked := blockReaches(b, hcall.Block(), func(x *ssa.BasicBlock) bool { return assignChecked(x) || (x == header && x != b) })
+			unchecked := reachesEnd(b, func(x *ssa.BasicBlock) bool { return assignChecked(x) || (x == header && x != b) })
 			if header != b && blockReaches(b, header, assignChecked) {
 				unchecked = true
 			}
